@@ -69,6 +69,10 @@ class Iter:
         return r
 
 
+import os as _os
+TRACE = bool(_os.environ.get("VERIF_TRACE"))
+
+
 class LazyIter(Iter):
     """an iterator adaptor: items are produced (and the closures behind them run) when the consumer asks, as in Rust"""
     def __init__(self, gen):
@@ -115,6 +119,21 @@ def key_of(k):
     return ("id", id(k))
 
 
+def copy_spine(v, depth=60):
+    """structural copy of the Enum / list spine of a value; leaves (strings, numbers, opaque tokens) are shared"""
+    if depth <= 0:
+        return v
+    if isinstance(v, Enum):
+        e = Enum(v.variant, [copy_spine(x, depth - 1) for x in v.fields])
+        for k in ("name", "adt"):
+            if hasattr(v, k):
+                setattr(e, k, getattr(v, k))
+        return e
+    if type(v) is list:
+        return [copy_spine(x, depth - 1) for x in v]
+    return v
+
+
 def plain_of(x):
     """the concrete string / integer an abstract value stands for, or the value itself"""
     x = absint.deref(x)
@@ -137,6 +156,7 @@ class Machine:
     def __init__(self, fb, intercept=None, inline=None, max_visits=6, budget=400, on_store=None, crate="lib"):
         self.fb = fb
         self.intercept = intercept
+        self.gmap_stack = []
         self.inline = inline or (lambda name: True)
         self.max_visits = max_visits
         self.budget = budget
@@ -156,10 +176,13 @@ class Machine:
             raise Loop("call depth")
         self.stack.append(g.name)
         self.gen_stack.append(generics or [])
+        gp = getattr(g, "generic_params", None) or []
+        self.gmap_stack.append(dict(zip(gp, generics)) if generics and len(gp) == len(generics) else {})
         self.visited.add(g.name)
         try:
             env = {i + 1: v for i, v in enumerate(args)}
             absint.POINTERS = True
+            absint.FN_CONST = lambda cc: FnItem(mir.norm(cc["fn"].get("resolved") or cc["fn"]["def"]))
             kind, b, env2 = absint.run_fragment(g, 0, env, oracle=lambda ff, bb, tt, e: self._oracle(g, bb, tt, e),
                                                 max_visits=self.max_visits, on_store=self.on_store, max_blocks=3000)
             if kind == "diverge":
@@ -169,8 +192,93 @@ class Machine:
         finally:
             self.stack.pop()
             self.gen_stack.pop()
+            self.gmap_stack.pop()
             if not self.stack:
                 absint.POINTERS = False
+                absint.FN_CONST = None
+
+    def subst_generics(self, gens):
+        """the generic arguments of a call with the enclosing function's own parameters replaced by what it was instantiated with"""
+        if not gens:
+            return gens
+        m = self.gmap_stack[-1] if self.gmap_stack else {}
+        if not m:
+            return gens
+        import re as _re
+        out = []
+        for x in gens:
+            x = str(x)
+            for name, ty in m.items():
+                if name and name[0].isalpha():
+                    x = _re.sub(r"(?<![A-Za-z0-9_:])%s(?![A-Za-z0-9_])" % _re.escape(name), lambda _m, ty=str(ty): ty, x)
+            out.append(x)
+        return out
+
+    @staticmethod
+    def top_args(ty):
+        """top-level generic arguments of `Path<A, B<C>, D>` -> [A, B<C>, D]"""
+        if "<" not in ty or not ty.endswith(">"):
+            return []
+        inner = ty[ty.index("<") + 1:-1]
+        out, depth, cur = [], 0, ""
+        for ch in inner:
+            if ch in "<([":
+                depth += 1
+            elif ch in ">)]":
+                depth -= 1
+            if ch == "," and depth == 0:
+                out.append(cur.strip())
+                cur = ""
+            else:
+                cur += ch
+        if cur.strip():
+            out.append(cur.strip())
+        return out
+
+    def unify_impl_generics(self, f, target, method_generics):
+        """generic arguments for a method of `impl<P..> Trait for Type<P..>` called on the concrete type `target`: the impl's
+        parameters are read off by aligning the impl's self type with the target, the method's own parameters follow"""
+        gp = getattr(f, "generic_params", None) or []
+        pat = self.top_args((f.self_ty or "").replace("ruschm::", ""))
+        act = self.top_args(target.replace("ruschm::", ""))
+        m = {}
+        if len(pat) == len(act):
+            for p_, a_ in zip(pat, act):
+                if p_ in gp:
+                    m[p_] = a_
+        out, rest = [], list(method_generics)
+        for name in gp:
+            if name in m:
+                out.append(m[name])
+            elif rest:
+                out.append(rest.pop(0))
+            else:
+                out.append(name)
+        return out
+
+    def resolve_by_type(self, c, tt):
+        gens = self.subst_generics((tt.get("fn") or {}).get("generics"))
+        if not gens:
+            return None
+        selfty = str(gens[0]).replace("&mut ", "").replace("&", "").strip()
+        if not selfty or not ("::" in selfty):
+            return None              # still a bare parameter name: not known in this frame
+        meth = c.rsplit("::", 1)[-1]
+        trait = mir.norm(c.rsplit("::", 1)[0]).split("<")[0]
+
+        def same(t1, t2):
+            import re as _re
+            strip = lambda t: _re.sub(r"'[a-z_]+,? ?", "", (t or "").replace("ruschm::", "")).replace(" ", "").replace("&mut", "").replace("&", "")
+            return strip(t1) == strip(t2)
+        cands = [f for f in self.fb.all(self.crate) if f.name.endswith("::" + meth) and f.trait and mir.norm(f.trait).split("<")[0] == trait and
+                 f.self_ty and same(f.self_ty, selfty)]
+        if len(cands) > 1 and len(gens) > 1:
+            # several impls of the trait for this type (From<A>, From<B>): the one whose parameter has the argument's type
+            want = gens[1]
+            c2 = [f for f in cands if f.arg_count >= 1 and same(f.local_ty(1) or "", want)]
+            if len(c2) == 1:
+                cands = c2
+        return cands[0] if len(cands) == 1 else None
 
     def call_closure(self, clo, args):
         g = self.fb.by_path(clo.fn, self.crate) if isinstance(clo, Closure) else None
@@ -191,6 +299,14 @@ class Machine:
         return UNKNOWN
 
     def _oracle(self, g, bb, tt, env):
+        if TRACE:
+            r = self._oracle0(g, bb, tt, env)
+            import sys as _s
+            _s.stderr.write("%s%s @%s bb%d -> %s\n" % ("  " * len(self.stack), (callee(tt) or "?")[-70:], g.name.rsplit("::", 1)[-1], bb, repr(r)[:140]))
+            return r
+        return self._oracle0(g, bb, tt, env)
+
+    def _oracle0(self, g, bb, tt, env):
         c = callee(tt) or ""
         raw = [self._operand(env, x) for x in tt["args"]]
         a = [absint.deref(x) for x in raw]
@@ -222,10 +338,19 @@ class Machine:
                         tgt.set(cur + piece)
                     return []
             return UNKNOWN
+        if c and raw and (tt.get("fn") or {}).get("resolved") is None and self.gmap_stack and self.gmap_stack[-1]:
+            # a trait method on a generic type whose instantiation is known from the enclosing calls: an impl written in the crate
+            # takes precedence over the std pass-through models (`From` / `Into` / `Deref` ...)
+            h0 = self.resolve_by_type(c, tt)
+            if h0 is not None and self.inline(c):
+                return self.run(h0, raw, generics=self.subst_generics((tt.get("fn") or {}).get("generics")))
         r = self._model(c, a, tt, g)
         if r is not NOT:
             return r
         h = (self.fb.by_call(tt, self.crate) or self.fb.by_path(c, self.crate)) if c else None
+        if h is None and c and (tt.get("fn") or {}).get("resolved") is None and raw:
+            # a trait method called on a generic type: instantiate the type with what the enclosing calls were instantiated with
+            h = self.resolve_by_type(c, tt)
         if h is None and c and (tt.get("fn") or {}).get("resolved") is None and raw:
             # a trait method called on a generic receiver: dispatch on the abstract value's type
             recv = a[0]
@@ -241,7 +366,7 @@ class Machine:
                 if len(cands) == 1:
                     h = cands[0]
         if h is not None and self.inline(c):
-            return self.run(h, raw, generics=(tt.get("fn") or {}).get("generics"))
+            return self.run(h, raw, generics=self.subst_generics((tt.get("fn") or {}).get("generics")))
         if h is None and c:
             # an external call we have no model for: if it is handed a `&mut` to abstract state it may change it behind our back
             # — refuse to continue (the row becomes UNDECIDED) rather than compute with stale state
@@ -489,6 +614,12 @@ class Machine:
             if isinstance(v0, Enum) and len(v0.fields) == 1:
                 return v0.fields[0]
             return UNKNOWN
+        if end == "clone" and tt is not None and isinstance(a0, (Enum, list)):
+            # a clone of the crate's cons list is consumed destructively (into_pair_iter / pop take the cells apart in place), so it
+            # must not share its spine with the original; every other clone keeps sharing (identity of skeletons matters to the tables)
+            g0 = " ".join(str(x) for x in ((tt.get("fn") or {}).get("generics") or []))
+            if "pair::GenericPair<" in g0 and (g0.startswith("parser::pair::GenericPair<") or g0.startswith("std::boxed::Box<parser::pair::GenericPair<")):
+                return copy_spine(a0)
         if m("std::ops::Deref>::deref", "std::ops::DerefMut>::deref_mut", "std::ops::Deref::deref", "std::ops::DerefMut::deref_mut",
              "std::convert::AsRef::as_ref", "std::convert::AsMut::as_mut", "std::borrow::Borrow::borrow", "std::clone::Clone::clone", "std::convert::AsRef>::as_ref", "std::convert::AsMut>::as_mut",
              "std::borrow::Borrow>::borrow", "std::borrow::BorrowMut>::borrow_mut", "std::rc::Rc::new", "std::boxed::Box::new",
@@ -515,6 +646,32 @@ class Machine:
             if end == "escape_debug" and ch.isprintable():
                 return ch
             return "\\u{%x}" % a0
+        if c.startswith("either::Either::") and isinstance(a0, Enum) and len(a0.fields) == 1:
+            # either::Either { Left(L) = 0, Right(R) = 1 }
+            if end in ("left", "right"):
+                return some(a0.fields[0]) if a0.variant == (0 if end == "left" else 1) else none()
+            if end in ("is_left", "is_right"):
+                return a0.variant == (0 if end == "is_left" else 1)
+            if end in ("unwrap_left", "unwrap_right", "expect_left", "expect_right"):
+                if a0.variant == (0 if "left" in end else 1):
+                    return a0.fields[0]
+                self.events.append(("panic", "Either::%s on the other variant" % end, g.name if g else "?"))
+                return UNKNOWN
+            if end in ("as_ref", "as_mut"):
+                return a0
+            if end == "flip":
+                e = Enum(1 - a0.variant, list(a0.fields))
+                return e
+        if m("Box::new_uninit", "Box::<T>::new_uninit"):
+            # `vec![a, b]` is lowered to: an uninitialised boxed array (MaybeUninit { uninit, value: ManuallyDrop { value:
+            # MaybeDangling(array) } }), a store of the array into it, box_assume_init_into_vec_unsafe
+            return [UNKNOWN, [[UNKNOWN]]]
+        if m("box_assume_init_into_vec_unsafe"):
+            try:
+                arr = a0[1][0][0]
+            except Exception:
+                return UNKNOWN
+            return list(arr) if isinstance(arr, list) else UNKNOWN
         if m("std::hint::must_use", "std::convert::identity", "std::hint::black_box"):
             return a0
         if m("std::mem::drop", "std::ops::Drop>::drop"):
@@ -984,6 +1141,8 @@ class Machine:
                 if take is False:
                     return none()
                 raise Stuck("next_if predicate undecided")
+        if end in ("by_ref", "fuse", "cloned", "copied", "into_iter") and "Iterator" in c and isinstance(a0, Enum) and self.has_local_next(a0):
+            return a0                       # an adaptor that changes nothing we track, around an iterator implemented in the crate
         if not isinstance(a0, Iter) and end in ITER_METHODS and end != "next" and \
                 (isinstance(a0, PeekableIt) or (isinstance(a0, Enum) and getattr(a0, "adt", None))):
             mat = self.materialize(a0)
@@ -1066,6 +1225,16 @@ class Machine:
             return LazyIter(_it.chain(drain(a0), iter(list(o))))
         if end in ("collect", "from_iter", "collect_vec"):
             dty = (g.local_ty(tt["dest"]["local"]) or "") if (g is not None and tt is not None) else ""
+            if end == "collect" and tt is not None:
+                # collecting into a type of the crate: its own FromIterator impl builds the value
+                gens = self.subst_generics((tt.get("fn") or {}).get("generics")) or []
+                target = str(gens[1]) if len(gens) > 1 else dty
+                base = mir.norm(target).split("<")[0] if target else ""
+                if base and not base.startswith("std::") and "::" in base:
+                    cands = [f for f in self.fb.all(self.crate) if f.name.endswith("::from_iter") and f.trait and "FromIterator" in f.trait and
+                             f.self_ty and mir.norm(f.self_ty).split("<")[0] == base]
+                    if len(cands) == 1:
+                        return self.run(cands[0], [a0], generics=self.unify_impl_generics(cands[0], target, [str(gens[0])] if gens else []))
             items = drain(a0) if dty.startswith("std::result::Result<") else a0.rest()
             if dty.startswith("std::result::Result<"):
                 out = []
